@@ -13,6 +13,14 @@ open Driver Remoc.Wire
 structure St where
   lines : Nat := 0
   diffs : Nat := 0
+  -- peer mode (traces of one real endpoint talking to a spec peer of a given version)
+  trace : String := ""
+  peerVersion : Nat := 3
+  started : Bool := false
+  payloadNext : Bool := false
+  apiIds : List (Nat × Nat) := []
+  frames : Nat := 0
+  idFrames : Nat := 0
 
 def splitBar (s : String) : Option (String × String) :=
   match s.splitOn " | " with
@@ -26,6 +34,43 @@ def step (st : St) (n : Nat) (line : String) : IO St := do
     IO.println s!"DIFF line={n} {why} :: {l}"
     return { st with lines := st.lines + 1, diffs := st.diffs + 1 }
   let ok : IO St := return { st with lines := st.lines + 1 }
+  -- ---- peer mode: lines of a `mux` trace
+  match words l with
+  | ["trace", name] => return { st with trace := name, peerVersion := 3, started := false, payloadNext := false, apiIds := [] }
+  | ["injected", _, "hello", v, _, _, _, _] => return { st with peerVersion := v.toNat?.getD 3 }
+  | ["apiid", p, i] => return { st with apiIds := st.apiIds ++ [(p.toNat?.getD 0, i.toNat?.getD 0)] }
+  | ["new", "B", "ok"] => return { st with started := true }
+  | ["tx", "B", hx] =>
+    if !st.started then return st else
+    if st.payloadNext then return { st with payloadNext := false } else
+    match parseHex hx with
+    | none => bad "unparsable hex"
+    | some bs =>
+      match decode bs with
+      | .error _ => bad s!"{st.trace}: the real endpoint emitted a frame the v3 spec decoder rejects"
+      | .ok m =>
+        let st := { st with frames := st.frames + 1, lines := st.lines + 1 }
+        let idOf := fun (p : Nat) => ((st.apiIds.find? (·.1 == p)).map (·.2)).getD p
+        -- the frame must be exactly the spec encoding of what it decodes to (no stray bytes)
+        if encode m != bs then bad s!"{st.trace}: frame is not the canonical v3 encoding of {msgToText m}" else
+        match m with
+        | .data _ _ _ => return { st with payloadNext := true }
+        | .openPort p w id =>
+          let api := Msg.openPort p w (some (idOf p))
+          if forPeer st.peerVersion api == m then return { st with idFrames := st.idFrames + 1 }
+          else bad s!"{st.trace}: to a version {st.peerVersion} peer the spec sends {msgToText (forPeer st.peerVersion api)}, the real endpoint sent {msgToText m}"
+        | .portData p f lst w ps ids =>
+          let api := Msg.portData p f lst w ps (some (ps.map idOf))
+          if forPeer st.peerVersion api == m then return { st with idFrames := st.idFrames + 1 }
+          else
+            let _ := ids
+            bad s!"{st.trace}: to a version {st.peerVersion} peer the spec sends {msgToText (forPeer st.peerVersion api)}, the real endpoint sent {msgToText m}"
+        | _ => return st
+  | _ =>
+  if (l.startsWith "op " || l.startsWith "opd " || l.startsWith "rx " || l.startsWith "tx " || l.startsWith "cfg " || l.startsWith "ret " ||
+      l.startsWith "port " || l.startsWith "credits " || l.startsWith "settled " || l.startsWith "sent " || l.startsWith "end " ||
+      l.startsWith "run " || l.startsWith "cancelled " || l.startsWith "injected " || l.startsWith "new " || l.startsWith "tasks " ||
+      l.startsWith "alloc ") then return st else
   match splitBar l with
   | none => bad "malformed"
   | some (lhs, rhs) =>
@@ -54,4 +99,4 @@ def step (st : St) (n : Nat) (line : String) : IO St := do
 
 def main : IO Unit := do
   let stdin ← IO.getStdin
-  lineLoop stdin ({} : St) 1 step (fun st => IO.println s!"END lines={st.lines} diffs={st.diffs}")
+  lineLoop stdin ({} : St) 1 step (fun st => IO.println s!"END lines={st.lines} diffs={st.diffs} frames={st.frames} idframes={st.idFrames}")
